@@ -20,7 +20,7 @@ func vfArbValue(tag string) (any, bool) {
 // blocks: 0 = the block count is at most 2 (what is decided is the arithmetic); 1 = only the block count is
 // arbitrary (what is decided is the allocation it is trusted for).
 func VerifC10GraphSize(arch int, blocks int) {
-	name := []string{"llama", "mllama", "gemma3", "other"}[arch]
+	name := []string{"llama", "mllama", "gemma3", "other", "chatglm", "command-r", "qwen2", "phi2", "stablelm", "deepseek2"}[arch]
 	kv := KV{"general.architecture": name}
 	keys := []string{"embedding_length", "attention.head_count", "attention.head_count_kv", "feed_forward_length"}
 	if blocks != 0 {
@@ -32,11 +32,20 @@ func VerifC10GraphSize(arch int, blocks int) {
 		kv[name+".block_count"] = n
 	}
 	for _, k := range keys {
+		if arch >= 4 {
+			// the metadata is well-typed here; the tensors' shapes are the subject
+			kv[name+"."+k] = verifNondetU32(k)
+			continue
+		}
 		if v, ok := vfArbValue(k); ok {
 			kv[name+"."+k] = v
 		}
 	}
-	switch verifChoice(3) {
+	tokChoice := 1
+	if arch < 4 {
+		tokChoice = verifChoice(3)
+	}
+	switch tokChoice {
 	case 1:
 		kv["tokenizer.ggml.tokens"] = &array{size: int(verifNondetU32("vocab"))}
 	case 2:
@@ -58,7 +67,11 @@ func VerifC10GraphSize(arch int, blocks int) {
 		}
 	}
 	var ts []*Tensor
-	switch verifChoice(3) {
+	ffnChoice := 0
+	if arch < 4 {
+		ffnChoice = verifChoice(3)
+	}
+	switch ffnChoice {
 	case 1:
 		shape := []uint64{verifNondetU64("dim")}
 		if verifChoice(2) == 1 {
@@ -67,6 +80,19 @@ func VerifC10GraphSize(arch int, blocks int) {
 		ts = append(ts, &Tensor{Name: "blk.0.ffn_gate.0.weight", Kind: 0, Shape: shape})
 	case 2:
 		ts = append(ts, &Tensor{Name: "blk.0.ffn_gate_exps.weight", Kind: 0, Shape: []uint64{verifNondetU64("dim")}})
+	}
+	if arch >= 4 {
+		// tensors the other architectures' formulas look at, with 0, 1 or 2 dimensions
+		for _, tn := range []string{"blk.0.attn_qkv.bias", "blk.0.attn_qkv.weight", "token_embd.weight"} {
+			switch verifChoice(4) {
+			case 1:
+				ts = append(ts, &Tensor{Name: tn, Kind: 0, Shape: []uint64{}})
+			case 2:
+				ts = append(ts, &Tensor{Name: tn, Kind: 0, Shape: []uint64{verifNondetU64("dim")}})
+			case 3:
+				ts = append(ts, &Tensor{Name: tn, Kind: 0, Shape: []uint64{verifNondetU64("dim"), verifNondetU64("dim")}})
+			}
+		}
 	}
 	f := GGML{container: &containerGGUF{}, model: &gguf{containerGGUF: &containerGGUF{}, kv: kv, tensors: ts}}
 	ctx, batch := verifNondetU64("context"), verifNondetU64("batch")
